@@ -43,8 +43,59 @@ ValidInertia(d, p) ==        \* moments d = <<xx, yy, zz>>, products p = <<xy, x
   /\ d[1] + d[2] >= d[3] /\ d[1] + d[3] >= d[2] /\ d[2] + d[3] >= d[1]
   /\ d[1] >= Abs(2 * p[3]) /\ d[2] >= Abs(2 * p[2]) /\ d[3] >= Abs(2 * p[1])
 
+\* ---- angular velocity <-> coordinate derivatives (C28)
+\* body-fixed x-y-z angles q, R = Rx Ry Rz.  The angular velocity of B in P for coordinate rates qd is, by composition of the three
+\* elementary rotations, w_P = qd1 x + qd2 (Rx y) + qd3 (Rx Ry z)  (expressed in P)  and  w_B = R' w_P  (expressed in B):
+\* the matrices Wp, Wb with those columns are what the library calls N^-1; their time derivatives follow from the rotating axes.
+ColsToMat(c1, c2, c3) == << <<c1[1], c2[1], c3[1]>>, <<c1[2], c2[2], c3[2]>>, <<c1[3], c2[3], c3[3]>> >>
+NXYZ(c) ==
+  LET Rx == RotA("x", c.q[1])  Ry == RotA("y", c.q[2])  Rz == RotA("z", c.q[3])
+      Rxy == MM(Rx, Ry)  Rm == MM(Rxy, Rz)
+      qd == IVec(c.qd)  qdd == IVec(c.qdd)
+      \* parent frame: axes x, y1 = Rx y, z2 = Rx Ry z; y1 turns with qd1 x, z2 with qd1 x + qd2 y1
+      y1 == MV(Rx, Y1)  z2 == MV(Rxy, Z1)
+      w1 == VScale(qd[1], X1)  w2 == VScale(qd[2], y1)
+      Wp == ColsToMat(X1, y1, z2)
+      Wpd == ColsToMat(VZero, Cross(w1, y1), Cross(VAdd(w1, w2), z2))
+      wP == MV(Wp, qd)
+      wPd == VAdd(MV(Wp, qdd), MV(Wpd, qd))
+      \* body frame: w_B = R' w_P, columns R' x, R' y1, R' z2 = (Ry Rz)' x, Rz' y, z
+      Wb == MM(MT(Rm), Wp)
+      wB == MV(MT(Rm), wP)
+      \* d/dt (R' v) = R' (vdot - w_P x v)
+      Wbd == MM(MT(Rm), ColsToMat(VSub(VZero, Cross(wP, X1)), VSub(Cross(w1, y1), Cross(wP, y1)), VSub(Cross(VAdd(w1, w2), z2), Cross(wP, z2))))
+      wBd == MV(MT(Rm), wPd)          \* (the derivative of w_B's measure numbers: R'(wPd - wP x wP) = R' wPd)
+  IN [Wp |-> Wp, Wb |-> Wb, Wpd |-> Wpd, Wbd |-> Wbd, wP |-> wP, wB |-> wB, wPd |-> wPd, wBd |-> wBd,
+      \* identity of the spec: R' maps the derivative correctly -- wBd computed from Wb, Wbd equals R' wPd
+      consistent |-> VAdd(MV(Wb, qdd), MV(Wbd, qd)) = wBd]
+\* quaternions (w, x, y, z), angular velocity w_P in the parent frame: qdot = (0, w_P) (x) q / 2; the spec works with 2 qdot and 4 qddot
+QMul(a, b) == << RSub(RSub(RSub(RMul(a[1], b[1]), RMul(a[2], b[2])), RMul(a[3], b[3])), RMul(a[4], b[4])),
+                 RAdd(RAdd(RMul(a[1], b[2]), RMul(a[2], b[1])), RSub(RMul(a[3], b[4]), RMul(a[4], b[3]))),
+                 RAdd(RAdd(RMul(a[1], b[3]), RMul(a[3], b[1])), RSub(RMul(a[4], b[2]), RMul(a[2], b[4]))),
+                 RAdd(RAdd(RMul(a[1], b[4]), RMul(a[4], b[1])), RSub(RMul(a[2], b[3]), RMul(a[3], b[2]))) >>
+NQuat(c) ==
+  LET qq == << QC(c.q[1]), QC(c.q[2]), QC(c.q[3]), QC(c.q[4]) >>
+      w == IVec(c.w)  wd == IVec(c.wd)
+      W4(v) == << Zero, v[1], v[2], v[3] >>
+      qd2 == QMul(W4(w), qq)                                        \* 2 qdot
+      qdd4 == [i \in 1..4 |-> RAdd(RMul(R(2), QMul(W4(wd), qq)[i]), QMul(W4(w), qd2)[i])]    \* 4 qddot = 2 (0,wd)(x)q + (0,w)(x)(2 qdot)
+      \* the rotation matrix is quadratic in q: its derivative by the product rule, with qdot = qd2 / 2 (so this is 2 Rdot / 2 = Rdot)
+      Rm == QuatRot(qq[1], qq[2], qq[3], qq[4])
+      Dd(a, b, ad, bd) == RNeg(RMul(R(2), RAdd(RMul(a, ad), RMul(b, bd))))          \* d/dt [1 - 2(a^2 + b^2)] with 2 qdot: -2 (a ad + b bd)
+      Td(a, b, ad, bd) == RAdd(RMul(ad, b), RMul(a, bd))                            \* d/dt [2 a b] with 2 qdot: ad b + a bd
+      ww == qq[1]  x == qq[2]  y == qq[3]  z == qq[4]  wwd == qd2[1]  xd == qd2[2]  yd == qd2[3]  zd == qd2[4]
+      Rd == << << Dd(y, z, yd, zd), RSub(Td(x, y, xd, yd), Td(ww, z, wwd, zd)), RAdd(Td(x, z, xd, zd), Td(ww, y, wwd, yd)) >>,
+               << RAdd(Td(x, y, xd, yd), Td(ww, z, wwd, zd)), Dd(x, z, xd, zd), RSub(Td(y, z, yd, zd), Td(ww, x, wwd, xd)) >>,
+               << RSub(Td(x, z, xd, zd), Td(ww, y, wwd, yd)), RAdd(Td(y, z, yd, zd), Td(ww, x, wwd, xd)), Dd(x, y, xd, yd) >> >>
+      WxR == ColsToMat(Cross(w, Col(Rm, 1)), Cross(w, Col(Rm, 2)), Cross(w, Col(Rm, 3)))
+  IN [qd2 |-> qd2, qdd4 |-> qdd4,
+      \* identity of the spec: this qdot IS the time derivative of the coordinates of a rotation turning with w_P:  Rdot = w_P x R
+      isDerivative |-> Rd = WxR]
+
 Case(c) ==
-  CASE c.kind = "seq" -> [R |-> RotOf(c.r)]
+  CASE c.kind = "nxyz" -> NXYZ(c)
+    [] c.kind = "nquat" -> NQuat(c)
+    [] c.kind = "seq" -> [R |-> RotOf(c.r)]
     [] c.kind = "quat" -> [R |-> QuatRot(QC(c.q[1]), QC(c.q[2]), QC(c.q[3]), QC(c.q[4]))]
     [] c.kind = "angleaxis" -> [R |-> Rodrigues(c.ang, AxisOf(c.axis))]
     [] c.kind = "twoaxes" ->      \* axis i along column i of R; axis j "approximately" along column j plus a multiple of column i
@@ -77,5 +128,8 @@ Case(c) ==
 AInit == l = 1 /\ desc = <<>> /\ q = <<>> /\ u = <<>>
 ANext == l <= Len(Log) /\ l' = l + 1 /\ UNCHANGED <<desc, q, u>>
 ASpec == AInit /\ [][ANext]_<<desc, q, u, l>>
-EmitAlg == l > 1 => PrintT("OUT " \o ToJson([i |-> l - 1, r |-> Case(Log[l - 1])]))
+EmitAlg == l > 1 => LET r == Case(Log[l - 1]) IN
+                      /\ PrintT("OUT " \o ToJson([i |-> l - 1, r |-> r]))
+                      /\ (Log[l - 1].kind = "nxyz" => r.consistent)
+                      /\ (Log[l - 1].kind = "nquat" => r.isDerivative)
 =============================================================================
